@@ -1320,6 +1320,11 @@ htp_status_t htp_decode_path_inplace(htp_tx_t *tx, bstr *path) {
                                     if (cfg->decoder_cfgs[HTP_DECODER_URL_PATH].nul_encoded_unwanted != HTP_UNWANTED_IGNORE) {
                                         tx->response_status_expected_number = cfg->decoder_cfgs[HTP_DECODER_URL_PATH].nul_encoded_unwanted;
                                     }
+
+                                    if (cfg->decoder_cfgs[HTP_DECODER_URL_PATH].nul_encoded_terminates) {
+                                        bstr_adjust_len(path, wpos);
+                                        return HTP_OK;
+                                    }
                                 }
                             } else {
                                 // Invalid %u encoding
